@@ -2373,6 +2373,23 @@ fn tagmask(tags: &[cascette_formats::install::InstallTag], i: usize) -> i64 {
     if tags.len() != TAGS.len() { -1 } else { m }
 }
 
+/// archive-index capacity family: ver = 10000 + key size * 100 + offset size * 10 + c; the entry count is
+/// capacity - 1, capacity, capacity + 1 or 2 * capacity (c = 0..3) of a 4 KiB block
+fn aidx_capacity(ver: u64) -> (usize, usize, usize) {
+    let ks = ((ver - 10_000) / 100) as usize;
+    let ow = ((ver / 10) % 10) as usize;
+    let cap = 4096 / (ks + 4 + ow);
+    let target = match ver % 10 {
+        0 => cap - 1,
+        1 => cap,
+        2 => cap + 1,
+        _ => 2 * cap,
+    };
+    (ks, ow, target)
+}
+/// encoding page-size family: (CKey page KB, EKey page KB) by version, and the number of filler entries
+const ENC_PAGES: [(u16, u16); 6] = [(1, 1), (1, 1), (4, 4), (4, 8), (8, 4), (1, 16)];
+const ENC_FILLERS: u64 = 10;
 fn bp_build(fmt: &str, ver: u64, es: &[AEntry]) -> Result<Vec<u8>, String> {
     use cascette_crypto::md5::FileDataId;
     use cascette_crypto::{ContentKey, EncodingKey};
@@ -2432,7 +2449,18 @@ fn bp_build(fmt: &str, ver: u64, es: &[AEntry]) -> Result<Vec<u8>, String> {
         "archive_index" => {
             use cascette_formats::archive::{ArchiveGroupBuilder, ArchiveGroupEntry, ArchiveIndexBuilder};
             let mut out = Vec::new();
-            if ver == 6 {
+            if ver >= 10_000 {
+                // capacity family: key size x offset size, entry count at a boundary of the block capacity
+                let (ks, ow, target) = aidx_capacity(ver);
+                let mut b = ArchiveIndexBuilder::with_config(ks as u8, ow as u8, 4);
+                for e in es {
+                    b.add_entry(bk16(e.k)[..ks].to_vec(), c_size(e.s) as u32, e.k * 64);
+                }
+                for i in 0..target.saturating_sub(es.len()) as u64 {
+                    b.add_entry(k16(0x73, i + 100)[..ks].to_vec(), 9, 7);
+                }
+                b.build(std::io::Cursor::new(&mut out)).map_err(es_)?;
+            } else if ver == 6 {
                 let mut b = ArchiveGroupBuilder::new();
                 for e in es {
                     b.add_entry(ArchiveGroupEntry::new(bk16(e.k).to_vec(), (e.a * 513) as u16, (e.k * 64) as u32, c_size(e.s) as u32));
@@ -2450,7 +2478,15 @@ fn bp_build(fmt: &str, ver: u64, es: &[AEntry]) -> Result<Vec<u8>, String> {
         }
         "encoding" => {
             use cascette_formats::encoding::{CKeyEntryData, EKeyEntryData, EncodingBuilder};
-            let mut b = EncodingBuilder::new().with_page_sizes(1, 1);
+            let (ckb, ekb) = ENC_PAGES[(ver as usize).min(5)];
+            let mut b = EncodingBuilder::new().with_page_sizes(ckb, ekb);
+            if ver >= 2 {
+                for i in 0..ENC_FILLERS {
+                    let ek = EncodingKey::from_bytes(k16(0x75, i));
+                    b.add_ckey_entry(CKeyEntryData { content_key: ContentKey::from_bytes(k16(0x74, i)), file_size: 11 + i, encoding_keys: vec![ek] });
+                    b.add_ekey_entry(EKeyEntryData { encoding_key: ek, espec: "n".into(), file_size: 11 + i });
+                }
+            }
             for e in es {
                 let ek = EncodingKey::from_bytes(k16(0x60, e.k));
                 let mut eks = vec![ek];
@@ -2485,11 +2521,23 @@ fn bp_build(fmt: &str, ver: u64, es: &[AEntry]) -> Result<Vec<u8>, String> {
         }
         "tvfs" => {
             use cascette_formats::tvfs::TvfsBuilder;
-            let mut b = if ver == 1 { TvfsBuilder::with_flags(0x7) } else { TvfsBuilder::new() };
-            if ver == 1 {
+            // capacity family: ver = 100 + n (flags 0) / 200 + n (flags 7, EST): n filler files around the program's files
+            let est = ver == 1 || ver / 100 == 2;
+            let nfill = if ver >= 100 { ver % 100 } else { 0 };
+            let mut b = if est { TvfsBuilder::with_flags(0x7) } else { TvfsBuilder::new() };
+            if est {
                 b.add_est_spec("z".into());
                 b.add_est_spec("n".into());
             }
+            for i in 0..nfill {
+                let path = format!("fill/f{i:03}.bin");
+                if est {
+                    b.add_file_with_est(path, k9(0x76, i), 500 + i as u32, 60 + i as u32, Some(k16(0x77, i)), (i % 2) as u32);
+                } else {
+                    b.add_file(path, k9(0x76, i), 500 + i as u32, 60 + i as u32, Some(k16(0x77, i)));
+                }
+            }
+            let ver = u64::from(est);
             for e in es {
                 let mut ek = [0u8; 9];
                 ek.copy_from_slice(&bk16(e.k)[..9]);
@@ -2640,10 +2688,19 @@ fn bp_extract(fmt: &str, ver: u64, bytes: &[u8]) -> Result<Vec<Value>, String> {
         }
         "archive_index" => {
             let m = <ArchiveIndex as CascFormat>::parse(bytes).map_err(es_)?;
+            let (cks, _, ctarget) = if ver >= 10_000 { aidx_capacity(ver) } else { (16, 0, 0) };
+            let fillers: std::collections::HashSet<Vec<u8>> = if ver >= 10_000 { (0..ctarget as u64).map(|i| k16(0x73, i + 100)[..cks].to_vec()).collect() } else { std::collections::HashSet::new() };
+            let mut nfill = 0usize;
             for e in &m.entries {
+                if fillers.contains(&e.encoding_key) {
+                    nfill += usize::from(e.size == 9 && e.offset == 7);
+                    continue;
+                }
                 let k = a_key16(&e.encoding_key);
                 let ku = k.max(0) as u64;
-                let a = if ver == 6 {
+                let a = if ver >= 10_000 {
+                    if e.offset == ku * 64 && e.encoding_key.len() == cks { 0 } else { -1 }
+                } else if ver == 6 {
                     match (e.archive_index, e.offset == ku * 64) {
                         (Some(0), true) => 0,
                         (Some(513), true) => 1,
@@ -2658,6 +2715,9 @@ fn bp_extract(fmt: &str, ver: u64, bytes: &[u8]) -> Result<Vec<Value>, String> {
                 };
                 out.push(ae(k, a_size(u64::from(e.size)), a, 0));
             }
+            if ver >= 10_000 && nfill + out.len() != ctarget.max(out.len()) {
+                out.push(ae(-1, -1, -1, nfill as i64));
+            }
         }
         "encoding" => {
             let m = EncodingFile::parse(bytes).map_err(es_)?;
@@ -2669,8 +2729,25 @@ fn bp_extract(fmt: &str, ver: u64, bytes: &[u8]) -> Result<Vec<Value>, String> {
                 }
             }
             let mut n_ekeys = 0usize;
+            let mut nfill = 0u64;
+            if ver >= 2 {
+                let (ckb, ekb) = ENC_PAGES[(ver as usize).min(5)];
+                if m.header.ckey_page_size_kb != ckb || m.header.ekey_page_size_kb != ekb {
+                    out.push(ae(-1, -1, -1, -3));
+                }
+                // every filler: CKey -> its EKey, EKey entry with its size and spec "n"
+                for i in 0..ENC_FILLERS {
+                    if eks.remove(&k16(0x75, i)).is_some_and(|(fs, spec)| fs == 11 + i && spec == "n") {
+                        nfill += 1;
+                    }
+                }
+            }
             for p in &m.ckey_pages {
                 for e in &p.entries {
+                    if ver >= 2 && (0..ENC_FILLERS).any(|i| *e.content_key.as_bytes() == k16(0x74, i) && e.file_size == 11 + i && e.encoding_keys.len() == 1 && *e.encoding_keys[0].as_bytes() == k16(0x75, i)) {
+                        nfill += 1;
+                        continue;
+                    }
                     let k = a_key16(e.content_key.as_bytes());
                     let ku = k.max(0) as u64;
                     let (s, a) = if e.file_size >= (1u64 << 32) { (a_size(e.file_size - (1u64 << 32)), 1) } else { (a_size(e.file_size), 0) };
@@ -2697,6 +2774,9 @@ fn bp_extract(fmt: &str, ver: u64, bytes: &[u8]) -> Result<Vec<Value>, String> {
             }
             if n_ekeys != eks.len() {
                 out.push(ae(-1, -1, -1, -1));
+            }
+            if ver >= 2 && nfill != 2 * ENC_FILLERS {
+                out.push(ae(-1, -1, -1, nfill as i64 + 100));
             }
         }
         "root" => {
@@ -2726,7 +2806,19 @@ fn bp_extract(fmt: &str, ver: u64, bytes: &[u8]) -> Result<Vec<Value>, String> {
         }
         "tvfs" => {
             let m = TvfsFile::parse(bytes).map_err(es_)?;
+            let nfill = if ver >= 100 { ver % 100 } else { 0 };
+            let ver = u64::from(ver == 1 || ver / 100 == 2);
+            let mut fill_ok = 0u64;
             for f in &m.path_table.files {
+                if let Some(i) = f.path.strip_prefix("fill/f").and_then(|r| r.strip_suffix(".bin")).and_then(|r| r.parse::<u64>().ok()) {
+                    // a filler must resolve to its own container entry (EKey, encoded size, span length)
+                    let vfs = m.vfs_table.entries.iter().find(|v| v.offset == f.vfs_offset);
+                    let clen = vfs.and_then(|v| v.spans.first().map(|s| s.span_length));
+                    if m.resolve_path(&f.path).is_some_and(|c| c.ekey == k9(0x76, i) && c.encoded_size == 500 + i as u32) && clen == Some(60 + i as u32) {
+                        fill_ok += 1;
+                    }
+                    continue;
+                }
                 let k = a_path(&f.path);
                 let ku = k.max(0) as u64;
                 match m.resolve_path(&f.path) {
@@ -2756,6 +2848,9 @@ fn bp_extract(fmt: &str, ver: u64, bytes: &[u8]) -> Result<Vec<Value>, String> {
                         out.push(ae(if k == kk { k } else { -1 }, a_size(u64::from(c.encoded_size)), a, t));
                     }
                 }
+            }
+            if fill_ok != nfill {
+                out.push(ae(-1, -1, -1, fill_ok as i64 + 100));
             }
         }
         "patch_archive" => {
